@@ -348,7 +348,7 @@ func (g *G) param(allowWordOps bool) {
 
 func (g *G) arithExp() {
 	g.b.WriteString("$((")
-	pool := []string{"1+2", " x + 1 ", "x", "1", "x*y", "x<<2", "1 ? 2 : 3", "x=4", "$x+1", "a[", "08"}
+	pool := []string{"1+2", " x + 1 ", "x", "1", "x*y", "x<<2", "1 ? 2 : 3", "x=4", "$x+1", "a[", "08", "", "  "}
 	if g.O.MultiByte {
 		pool = append(pool, "é + 1", " \"é\" + 1 ", "日本+x", "'é' * 2")
 	}
@@ -500,7 +500,7 @@ func (g *G) hdBody(op, delim string, quoted bool) string {
 			pool = 26
 		}
 		if g.S.Chance(1, 12) {
-			pool = 30 // includes the rare lines 26..29 (and, for C18/C01 only, 24/25 when allowed)
+			pool = 31 // includes the rare lines 26..30 (and, for C18/C01 only, 24/25 when allowed)
 		}
 		if g.O.HeredocBodyPool == 1 {
 			pool = 4
@@ -562,6 +562,8 @@ func (g *G) hdBody(op, delim string, quoted bool) string {
 			} else {
 				line = "$x " + delim
 			}
+		case 30:
+			line = "$(()) empty arithmetic"
 		case 29:
 			line = "costs 5$" // a dollar sign at the end of a line
 		case 28:
